@@ -529,7 +529,11 @@ Section Lockstep.
       pose proof (pget_sim s0 c E (t_ws tx1) p n fs) as G.
       destruct (get_with_prefix fs p n (view s0 (t_ws tx1))) as [e|] eqn:G1.
       + destruct (own e) eqn:O.
-        * simpl in PO. rewrite PO in GP by reflexivity. discriminate.
+        * simpl in PO. destruct (keq (e_key e) p) eqn:KP.
+          -- apply keq_true in KP.
+             rewrite (pget_sim_own s0 c E (t_ws tx1) p n fs e G1 O KP), O.
+             split; auto; split; auto.
+          -- rewrite PO in GP by (simpl; apply orb_true_r). discriminate.
         * simpl in L. destruct L as (_ & Lp & _). apply prefix_In in Lp.
           rewrite (G eq_refl (Vp _ Lp)), O. split; auto; split; auto.
       + simpl in L. destruct L as (_ & Lp & _). apply prefix_In in Lp.
